@@ -436,3 +436,37 @@ def _(tier, seed):
                 if len(failures) >= 3:
                     return dict(evaluations=cases, distinct=cases, failures=failures)
     return dict(evaluations=cases, distinct=cases, failures=failures)
+
+
+# -- LAParams: the documented defaults, every argument stored under its own name, boxes_flow validated ------------------------------------------------------
+@exhaustive("laparams-documented-defaults-and-argument-wiring", props=["C09", "C08"],
+            note="LAParams() has the documented defaults (line_overlap 0.5, char_margin 2.0, line_margin 0.5, word_margin 0.1, boxes_flow 0.5, detect_vertical False, "
+                 "all_texts False); each keyword argument, given a value no other argument has, ends up in the attribute of the same name and nowhere else; "
+                 "boxes_flow outside [-1, 1] or of a non-numeric type is refused, None is accepted")
+def _():
+    import inspect
+    LA = lay.LAParams
+    fails, cases = [], 0
+    want = dict(line_overlap=0.5, char_margin=2.0, line_margin=0.5, word_margin=0.1, boxes_flow=0.5, detect_vertical=False, all_texts=False)
+    d = LA()
+    cases += 1
+    got = {k: getattr(d, k, "<missing>") for k in want}
+    if got != want or list(inspect.signature(LA.__init__).parameters)[1:] != list(want):
+        fails.append(dict(defaults=got, signature=list(inspect.signature(LA.__init__).parameters)))
+    marks = dict(line_overlap=0.125, char_margin=3.25, line_margin=0.75, word_margin=0.375, boxes_flow=-0.25, detect_vertical=True, all_texts=True)
+    for k, v in marks.items():
+        cases += 1
+        o = LA(**{k: v})
+        got = {a: getattr(o, a, "<missing>") for a in want}
+        if got != dict(want, **{k: v}):
+            fails.append(dict(argument=k, value=v, attributes=got))
+    for bf, ok in ((None, True), (-1, True), (1, True), (1.0, True), (0, True), (1.5, False), (-1.01, False), ("0.5", False)):
+        cases += 1
+        try:
+            LA(boxes_flow=bf)
+            accepted = True
+        except (real_module("pdfminer.pdfexceptions").PDFTypeError, real_module("pdfminer.pdfexceptions").PDFValueError):
+            accepted = False
+        if accepted != ok:
+            fails.append(dict(boxes_flow=repr(bf), accepted=accepted))
+    return dict(cases=cases, failures=fails)
